@@ -491,9 +491,18 @@ fn main() {
                 let mut per_strategy: Vec<Option<Vec<i64>>> = Vec::new();
                 for &strat in &Strat::ALL {
                     let mut answer: Option<Vec<i64>> = None;
+                    // every other request list is handed over as a reversed view of an array holding it backwards
+                    let backwards = Array1::from(qs.iter().rev().map(|&q| n64(q)).collect::<Vec<N64>>());
+                    let as_reversed_view = (qs.len() + n) % 2 == 0;
                     lx.explore(mode, |lx| {
                         let mut a = Array1::from(data.clone());
-                        match guarded(|| nsmc::with_strategy!(strat, i, a.quantiles_mut(&qa, i))) {
+                        let r = if as_reversed_view {
+                            let view = backwards.slice(ndarray::s![..;-1]);
+                            guarded(|| nsmc::with_strategy!(strat, i, a.quantiles_mut(&view, i)))
+                        } else {
+                            guarded(|| nsmc::with_strategy!(strat, i, a.quantiles_mut(&qa, i)))
+                        };
+                        match r {
                             Ok(Ok(res)) => {
                                 let v: Vec<i64> = res.to_vec();
                                 if !lx.check(v.len() == qs.len(), "C19/result-shape", || format!("quantiles_mut({:?}, {:?}) on {:?} has {} entries", qs, strat, data, v.len())) {
@@ -643,7 +652,7 @@ fn main() {
     let ilanes: Vec<Vec<i32>> = vec![vec![7 + (1 << 25) + 3, 7], vec![0, (1 << 24) + 1, (1 << 25) + 7], vec![-(1 << 26) - 5, 3, (1 << 26) + 9, 3]];
     rep.run_sub(
         "option-integer-lanes",
-        "3 lanes of Option<i32> with neighbours more than 2^24 apart (missing values interleaved) through quantile_axis_skipnan_mut x 5 strategies x q in {0, 1/4, 1/2, 3/4, 1, 0.3, 1 - 2^-k and 1/2 - 2^-k for k = 20..40}: within [min, max], non-decreasing in q, Lower <= X <= Higher",
+        "3 lanes of Option<i32> with neighbours more than 2^24 apart (missing values interleaved; the lane is a stride-2 view) through quantile_axis_skipnan_mut x 5 strategies x q in {0, 1/4, 1/2, 3/4, 1, 0.3, 1 - 2^-k and 1/2 - 2^-k for k = 20..40}: within [min, max], non-decreasing in q, Lower <= X <= Higher",
         ilanes.into_iter(),
         |lane, lx| {
             use ndarray_stats::QuantileExt;
@@ -666,7 +675,14 @@ fn main() {
                 for &q in &qs {
                     let mut out = None;
                     lx.single(|lx| {
-                        let mut a = Array1::from(data.clone());
+                        // the lane is every second element of a longer array (other values in between)
+                        let mut wide: Vec<Option<i32>> = Vec::new();
+                        for x in &data {
+                            wide.push(*x);
+                            wide.push(Some(1_000_000_007));
+                        }
+                        let mut parent = Array1::from(wide);
+                        let mut a = parent.slice_mut(ndarray::s![..;2]);
                         match guarded(|| nsmc::with_strategy!(strat, i, a.quantile_axis_skipnan_mut(Axis(0), n64(q), i)).ok().and_then(|x| x.into_scalar())) {
                             Ok(Some(v)) => {
                                 lx.check(mn <= v && v <= mx, "C19/outside-min-max", || format!("Option<i32> lane {:?} {:?} q={:e}: {} outside [{}, {}]", lane, strat, q, v, mn, mx));
